@@ -548,6 +548,9 @@ class Engine:
             return self.branch(z3.Length(v.t) > 0)
         if isinstance(v, (type, types.FunctionType, types.ModuleType, enum.Enum, ExcVal, BoundMethod, Closure)):
             return True
+        if self.is_live_instance(v):
+            if inspect.getattr_static(type(v), "__bool__", None) is None and inspect.getattr_static(type(v), "__len__", None) is None:
+                return True
         if hasattr(v, "pyvc_truth"):
             return v.pyvc_truth(self)
         raise Unsupported("truth of %r" % (v,))
@@ -863,7 +866,36 @@ class Engine:
             return obj.get(self, name)
         if hasattr(obj, "pyvc_method"):
             return BuiltinMethod(obj, name)
+        if self.is_live_instance(obj):
+            return self.live_getattr(obj, name)
         raise Unsupported("getattr(%r, %s)" % (obj, name))
+
+    def is_live_instance(self, obj):
+        """a real Python object built by the real interpreter from the repository's classes (e.g. codec Field objects in a STRUCT)"""
+        cls = type(obj)
+        mod = getattr(cls, "__module__", "")
+        return (mod in getattr(self, "live_modules", ())) and not isinstance(obj, type)
+
+    def live_getattr(self, obj, name):
+        try:
+            d = object.__getattribute__(obj, "__dict__")
+        except AttributeError:
+            d = {}
+        if name in d:
+            return d[name]
+        try:
+            raw = inspect.getattr_static(type(obj), name)
+        except AttributeError:
+            self.raise_(AttributeError, "%s.%s" % (type(obj).__name__, name), implicit="attr")
+        if isinstance(raw, property):
+            return self.call(raw.fget, [obj])
+        if isinstance(raw, types.FunctionType):
+            return BoundMethod(obj, raw)
+        if isinstance(raw, staticmethod):
+            return raw.__func__
+        if isinstance(raw, classmethod):
+            return BoundMethod(type(obj), raw.__func__)
+        return raw
 
     def class_attr(self, obj, cls, name):
         try:
